@@ -192,6 +192,20 @@ def inplace_batches(tier, rng, n_cases):
     return cases
 
 
+def many_segments(tier, rng):
+    """One packet cut into MORE THAN 256 segments (and exactly 256 / 257 / 512 / 513): small frames (one to a few payload bytes per
+    frame), alone and followed by another packet — a segment index kept in 8 bits wraps here and flags segment 256 `first` again."""
+    cases = []
+    for mx, nseg in ((25, 256), (25, 257), (25, 300), (26, 513), (27, 512), (30, 260)):
+        per = mx - 24
+        ln = nseg * per - rng.randrange(0, per)
+        big = gpkt(ln, rng.randrange(251), ty=rng.choice([0x01FF, 0x0104]), ts=rng.getrandbits(40), ifid=rng.getrandbits(32))
+        small = gpkt(3, rng.randrange(251), ty=0x01FF, ts=rng.getrandbits(40))
+        for pk in ([big], [big, small], [small, big, small]):
+            cases.append(rt_case(pk, rng.choice([0, mx]), mx, rng.getrandbits(16), rng.getrandbits(8), ("more-than-256-segments",)))
+    return cases
+
+
 def huge_frames(tier, rng):
     """frames longer than 65535 bytes: message headers that start at offsets >= 2^16 (a 16-bit offset or size somewhere shows here)"""
     cases = []
@@ -208,6 +222,7 @@ def gen_c01(tier, rng):
     cases += huge_frames(tier, rng)
     cases += random_batches(tier, rng, 1500 if tier == "quick" else 20000)
     cases += inplace_batches(tier, rng, 80 if tier == "quick" else 800)
+    cases += many_segments(tier, rng)
     cases += history_batches(tier, rng, 300 if tier == "quick" else 3000)
     # a stale reassembly on the endpoint before the batch arrives
     for c in random_batches(tier, rng, 100 if tier == "quick" else 1000):
@@ -260,6 +275,7 @@ def gen_c07(tier, rng):
     cases += huge_frames(tier, rng)
     cases += random_batches(tier, rng, 1500 if tier == "quick" else 20000, same_version=False)
     cases += inplace_batches(tier, rng, 80 if tier == "quick" else 800)
+    cases += many_segments(tier, rng)
     cases += history_batches(tier, rng, 300 if tier == "quick" else 3000)
     # empty batch
     for mx in (25, 64, 1500):
@@ -349,6 +365,13 @@ def gen_c09(tier, rng):
             ops.append("enc e encode %d 64 %s" % (rng.choice([0, 64]), " ".join("p%d" % rng.randrange(3) for _j in range(rng.randrange(1, 4)))))
             ops.append("enc e seq")
         cases.append(Case("h", ops, nontrivial=True, tags=("retagged-in-place",)))
+    # a payload of 65536 bytes and more (its 16-bit length wraps; the library does not reject it) BEHIND ordinary packets of the same batch,
+    # then further calls: whatever the call does with it, the counters of completed calls stay consecutive and the reported counter is the
+    # last frame's
+    for big in (65536, 65537, 70000, 131072):
+        ops = [pline(gpkt(10, 1, ty=0x01FF), "p0"), pline(gpkt(big, 2, ty=0x01FF), "p1"), pline(gpkt(30, 3, ty=0x0310), "p2"), "enc e dev 4", "enc e stream 5",
+               "enc e encode 0 1500 p0", "enc e seq", "enc e encode 0 1500 p0 p1 p2", "enc e seq", "enc e encode 0 1500 p2 p0", "enc e seq"]
+        cases.append(Case("h", ops, nontrivial=True, tags=("payload-of-64KiB-and-more",), meta={"noshrink": True}))
     # counter wrap: start close to the wrap by many small encodes
     n = 70000 if tier == "thorough" else 66000
     ops = [pline(gpkt(5, 1), "p0"), "enc e dev 1"]
@@ -391,7 +414,9 @@ def gen_c10(tier, rng):
         ops += ["enc e dev %d" % dev, "enc e stream %d" % stream]
         ops += [o for o in enc_history_ops(rng, 5, rng.randrange(1, 7), allow_ids=False) if not o.endswith(" seq")]
         mx = rng.choice([25, 40, 64, 100, 200, 1500])
-        mn = rng.choice([0, mx // 2, mx])
+        # the minimum may also EXCEED the maximum (the library does not reject it: frames are padded to the minimum); an encoder that
+        # keeps the earlier call's minimum in that case pads differently from a fresh one
+        mn = rng.choice([0, mx // 2, mx, mx + 1, 2 * mx, mx + rng.randrange(1, 300)])
         k = rng.randrange(0, 5)
         ids = " ".join("p%d" % rng.randrange(5) for _ in range(k))
         final = ("encode %d %d %s" % (mn, mx, ids)).rstrip()
